@@ -152,11 +152,18 @@ fn sites(f: &Fault, tier: Tier) -> Vec<(&'static str, Vec<X>, X)> {
         vec![assign("ol_", meta_map(vec![(MK::Meta("<".into(), None), func(&["rhs"], vec![print(s("in @<")), fs.clone(), boolean(true)]))]))],
         method(list(vec![id("ol_"), id("ol_")]), "sort", vec![]),
     ));
-    if tier == Tier::Thorough {
+    {
         v.push((
             "meta-display-in-list",
             vec![assign("od", meta_map(vec![(MK::Meta("display".into(), None), func(&[], vec![print(s("in @display")), fs.clone(), s("shown")]))]))],
             interp(vec![hole(list(vec![int(1), id("od")]))]),
+        ));
+    }
+    if tier == Tier::Thorough {
+        v.push((
+            "meta-display-in-map-in-tuple",
+            vec![assign("od", meta_map(vec![(MK::Meta("display".into(), None), func(&[], vec![print(s("in @display")), fs.clone(), s("shown")]))]))],
+            interp(vec![hole(tuple(vec![map(vec![("k", id("od"))]), int(1)]))]),
         ));
         v.push((
             "keep-callback",
